@@ -4,10 +4,14 @@ import itertools
 import gens
 
 RULE = ("random (generator x shape 1x1..8x8 incl. 1xk/kx1/oblong x every keyword argument incl. float/int/None accessible_cells and "
-        "max_tree_depth, do_forks, randomized_stack, start_coord, p in {0,.1,.4,.7,1,random}); RNG draws tapped from the real run; "
+        "max_tree_depth, do_forks, randomized_stack, start_coord, p in {0,.1,.4,.7,1,random}); start_coord is a grid cell or (about 8% of "
+        "the cases carrying one, plus a fixed block on every run) NOT a cell of the grid: one past each edge, negative, far outside, "
+        "wrong-length tuple - there the real code must raise ValueError before consuming randomness and the model must be in its "
+        "start-rejected error branch, and a RETURNED maze is a violation; RNG draws tapped from the real run; "
         "plus exhaustive enumeration of EVERY python-random choice sequence of default gen_dfs/gen_prim on small grids; "
         "non-trivial = run produced at least one connection or consumed a draw; distinct = distinct (case, draw sequence)")
-ASSUMPTIONS = ["the recording shims on numpy.random.* and generators.random delegate to the real RNGs (a tapped run is a genuine run)",
+ASSUMPTIONS = ["a start_coord that is not a pair of integers is outside the model's type Cell = Int x Int: the driver answers start_wrong_length without evaluating a model function; that the real code raises ValueError for it is checked on the real code only",
+               "the recording shims on numpy.random.* and generators.random delegate to the real RNGs (a tapped run is a genuine run)",
                "numpy/CPython semantics of np.argmax, np.where order, set membership as modelled (validated by exact agreement on every run)",
                "lattice_dim != 2 is not modelled (the code raises NotImplementedError)"]
 TRUSTED = ["IEEE double arithmetic of Lean `Float` in the driver-side argument conversion int(x*n) (not in any theorem)"]
@@ -19,17 +23,31 @@ def _one(ctx, case, script=None, pending=None, rand_script=None):
     try:
         impl, _ = gens.run_impl(case, script, rand_script)
     except gens.GeneratorRaised as e:
-        ctx.case([str(case), "raised"])
-        ctx.violate(f"{case['gen']} {case['rows']}x{case['cols']} {case['kwargs']} raised instead of returning a maze: {e}", dict(case=case, error=str(e)))
+        bad = gens.judge_raise(case, e)
+        ctx.case([str(case), "raised", e.kind], nontrivial=bad is None)
+        if bad:
+            ctx.violate(f"{case['gen']} {case['rows']}x{case['cols']} {case['kwargs']}: {bad}", dict(case=case, error=str(e)), key="start-coord-outside-grid" if gens.start_outside(case) else "unlisted")
+        else:
+            # the documented error branch: ValueError for a start_coord that is not a cell of the grid; the model must be in
+            # its error branch for that very reason
+            ctx.count(f"gen={case['gen']}"); ctx.count("start_coord_rejected=" + gens.start_outside(case))
+            if pending is not None:
+                rimpl = dict(rejected=True, draws=[], rands=[], edges=[])
+                pending.append((case, rimpl, gens.request(case, rimpl)))
         return None
-    key = dict(case=case, draws=impl["draws"], rands=len(impl["rands"]))
+    bad = gens.judge_returned_for_outside(case, impl)
+    if bad:
+        ctx.case(gens_canon(case, impl))
+        ctx.violate(f"{case['gen']} {case['rows']}x{case['cols']} {case['kwargs']}: {bad}", dict(case=case, draws=impl["draws"], rands=impl["rands"], edges=impl["edges"], meta={k: impl[k] for k in ('fully_connected','visited','start','n_accessible_cells','max_tree_depth')}), key="start-coord-outside-grid")
+        if pending is not None: pending.append((case, impl, gens.request(case, impl)))
+        return impl
     ctx.case(gens_canon(case, impl), nontrivial=bool(impl["edges"]) or bool(impl["draws"]))
     ctx.count(f"gen={case['gen']}"); ctx.count(f"cells={min(case['rows']*case['cols'], 64)//8*8}+")
     for k in case["kwargs"]: ctx.count(f"kw={k}")
     bad = ORACLE(case, impl)
     if bad:
         ctx.violate(f"{case['gen']} {case['rows']}x{case['cols']} {case['kwargs']}: {bad}", dict(case=case, draws=impl["draws"], rands=impl["rands"], edges=impl["edges"], meta={k: impl[k] for k in ('fully_connected','visited','start','n_accessible_cells','max_tree_depth')}))
-    pending.append((case, impl, gens.request(case, impl)))
+    if pending is not None: pending.append((case, impl, gens.request(case, impl)))
     return impl
 
 
@@ -76,6 +94,16 @@ def _special(ctx, pending):
                 ctx.count("long_thin_grid")
     for (r, c) in [(1, 130), (130, 1)]:
         _one(ctx, dict(gen="wilson", rows=r, cols=c, kwargs={}), None, pending); ctx.count("long_thin_grid")
+    # start_coord that is not a cell of the grid (the input of the repaired defect `gen_dfs((3,3), start_coord=(3,0))` and its
+    # relatives), every generator that takes one, on every run whatever the seed; and the border cells next to them (accepted)
+    for (r, c) in [(3, 3), (2, 5), (1, 1)] + ([] if ctx.quick else [(4, 2), (7, 7), (1, 6)]):
+        for gen in ("dfs", "prim", "percolation", "dfs_percolation"):
+            for sc in gens.outside_starts(ctx.rng, r, c) + [(r - 1, 0), (0, c - 1), (r - 1, c - 1), (0, 0)]:
+                kw = dict(start_coord=sc)
+                if gen in ("percolation", "dfs_percolation"): kw["p"] = ctx.rng.choice([0.0, 0.4, 1.0])
+                if gen in ("dfs", "prim") and ctx.rng.random() < 0.3: kw["accessible_cells"] = ctx.rng.choice([1, 2, r * c])
+                _one(ctx, dict(gen=gen, rows=r, cols=c, kwargs=kw), None, pending)
+                ctx.count("start_border_or_outside")
     # Wilson: a very long first walk (bounces between two unvisited cells; legal, unlikely) — step budgets, caps and restarts show here
     import c19, numpy as np
     from maze_dataset.generation.generators import LatticeMazeGenerators as LG
@@ -117,6 +145,9 @@ def run(ctx):
     shapes = [(1, 2), (2, 2), (1, 3), (2, 3)] if ctx.quick else [(1, 2), (2, 2), (1, 3), (3, 1), (2, 3), (3, 2), (1, 5), (2, 4)]
     n_ex, complete = exhaustive_dfs(ctx, shapes, pending, 3000 if ctx.quick else 200000)
     ctx.extra["exhaustive_dfs_runs"] = n_ex; ctx.extra["exhaustive_dfs_complete"] = complete
+    # report the most telling violation first (stable: order within a class is kept)
+    tell = "fully_connected=True although" if ORACLE is gens.oracle_c12 else "leaves the grid"
+    ctx.violations.sort(key=lambda v: 0 if tell in v["what"] else 1)
     outs = ctx.driver.run_parallel([rq for _, _, rq in pending])
     for (case, impl, rq), o in zip(pending, outs):
         ctx.traces_validated += 1
@@ -133,10 +164,14 @@ def search(ctx):
         try:
             impl, _ = gens.run_impl(case)
         except gens.GeneratorRaised as e:
-            ctx.violate(f"{case['gen']} {case['rows']}x{case['cols']} {case['kwargs']} raised instead of returning a maze: {e}", dict(case=case, error=str(e)))
-            return
+            bad = gens.judge_raise(case, e)
+            ctx.case([str(case), "raised", e.kind])
+            if bad:
+                ctx.violate(f"{case['gen']} {case['rows']}x{case['cols']} {case['kwargs']}: {bad}", dict(case=case, error=str(e)), key="start-coord-outside-grid" if gens.start_outside(case) else "unlisted")
+                return
+            continue
         ctx.case(gens_canon(case, impl))
-        bad = ORACLE(case, impl)
+        bad = gens.judge_returned_for_outside(case, impl) or ORACLE(case, impl)
         if bad:
             ctx.violate(f"{case['gen']} {case['rows']}x{case['cols']} {case['kwargs']}: {bad}", dict(case=case, draws=impl["draws"], edges=impl["edges"]))
             return
@@ -148,6 +183,11 @@ def replay(ctx, rp):
     case["kwargs"] = {k: (tuple(v) if k == "start_coord" else v) for k, v in case["kwargs"].items()}
     import random as pyrandom, numpy as np
     # replay by scripting python-random choices; numpy draws are replayed by seeding is impossible, so report the oracle on a fresh run
-    impl, _ = gens.run_impl(case, script=[d for d in c.get("draws", [])] if case["gen"] in ("dfs", "prim") and "start_coord" in case["kwargs"] else None)
-    bad = ORACLE(case, impl)
+    try:
+        impl, _ = gens.run_impl(case, script=[d for d in c.get("draws", [])] if case["gen"] in ("dfs", "prim") and "start_coord" in case["kwargs"] else None)
+    except gens.GeneratorRaised as e:
+        bad = gens.judge_raise(case, e)
+        if bad: ctx.violate(f"replay: {bad}", dict(case=case, error=str(e)))
+        return
+    bad = gens.judge_returned_for_outside(case, impl) or ORACLE(case, impl)
     if bad: ctx.violate(f"replay: {bad}", dict(case=case, draws=impl["draws"], edges=impl["edges"]))
